@@ -61,9 +61,13 @@ type ops struct {
 	must      func(string) value
 	set       func(string) (value, error)
 	unmarshal func([]byte) (value, error)
+	// the same two entry points on a receiver that already holds a value (built with the XxxAddrFrom
+	// constructor, which takes any address and port)
+	setOnto       func(netip.Addr, uint16, string) (value, string, error)
+	unmarshalOnto func(netip.Addr, uint16, []byte) (value, string, error)
 }
 
-func mkOps[T addrT, P addrP[T]](role spec.AddrRole, typ string, parse func(string) (T, error), must func(string) T) ops {
+func mkOps[T addrT, P addrP[T]](role spec.AddrRole, typ string, parse func(string) (T, error), must func(string) T, from func(netip.Addr, uint16) T) ops {
 	wrap := func(v T) value {
 		return value{addr: v.Addr(), port: v.Port(), str: v.String, marshal: v.MarshalJSON}
 	}
@@ -82,14 +86,26 @@ func mkOps[T addrT, P addrP[T]](role spec.AddrRole, typ string, parse func(strin
 			err := P(&v).UnmarshalJSON(b)
 			return wrap(v), err
 		},
+		setOnto: func(a netip.Addr, port uint16, s string) (value, string, error) {
+			v := from(a, port)
+			own := v.String()
+			err := P(&v).Set(s)
+			return wrap(v), own, err
+		},
+		unmarshalOnto: func(a netip.Addr, port uint16, b []byte) (value, string, error) {
+			v := from(a, port)
+			own := v.String()
+			err := P(&v).UnmarshalJSON(b)
+			return wrap(v), own, err
+		},
 	}
 }
 
 var roles = []ops{
-	mkOps[types.BindAddr](spec.AddrBind, "BindAddr", types.ParseBindAddr, types.MustParseBindAddr),
-	mkOps[types.BroadcastAddr](spec.AddrBroadcast, "BroadcastAddr", types.ParseBroadcastAddr, types.MustParseBroadcastAddr),
-	mkOps[types.ListenAddr](spec.AddrListen, "ListenAddr", types.ParseListenAddr, types.MustParseListenAddr),
-	mkOps[types.ControllerAddr](spec.AddrController, "ControllerAddr", types.ParseControllerAddr, types.MustParseControllerAddr),
+	mkOps[types.BindAddr](spec.AddrBind, "BindAddr", types.ParseBindAddr, types.MustParseBindAddr, types.BindAddrFrom),
+	mkOps[types.BroadcastAddr](spec.AddrBroadcast, "BroadcastAddr", types.ParseBroadcastAddr, types.MustParseBroadcastAddr, types.BroadcastAddrFrom),
+	mkOps[types.ListenAddr](spec.AddrListen, "ListenAddr", types.ParseListenAddr, types.MustParseListenAddr, types.ListenAddrFrom),
+	mkOps[types.ControllerAddr](spec.AddrController, "ControllerAddr", types.ParseControllerAddr, types.MustParseControllerAddr, types.ControllerAddrFrom),
 }
 
 // ---------------------------------------------------------------------------------------------
@@ -809,6 +825,72 @@ func main() {
 		distinct += nA1 + nA2 - overlap - 1 // the empty string is the trivial case
 	}
 
+	// ---- family D: Set / UnmarshalJSON on a receiver that already holds a value. The verdict and the
+	// resulting value must be those of the text alone, whatever the receiver held before (including
+	// a value the role's port rule forbids, which only the XxxAddrFrom constructors can produce, and
+	// including the receiver's own String()).
+	{
+		var nD int64
+		prevAddrs := []netip.Addr{netip.MustParseAddr("1.2.3.4"), netip.MustParseAddr("192.168.1.100"), netip.MustParseAddr("0.0.0.0")}
+		prevPorts := []uint16{0, 1, 59999, 60000, 60001, 65535}
+		for ri := range roles {
+			o := &roles[ri]
+			for _, pa := range prevAddrs {
+				for _, pp := range prevPorts {
+					texts := map[string]bool{}
+					for _, a := range []string{"1.2.3.4", "192.168.1.100", "0.0.0.0", "10.0.0.1"} {
+						texts[a] = true
+						for _, p := range prevPorts {
+							texts[fmt.Sprintf("%s:%d", a, p)] = true
+						}
+					}
+					texts[""] = true
+					texts["x"] = true
+					// the receiver's own text form
+					if _, own, _ := o.setOnto(pa, pp, "0.0.0.0"); own != "" {
+						texts[own] = true
+					}
+					keys := []string{}
+					for t := range texts {
+						keys = append(keys, t)
+					}
+					sort.Strings(keys)
+					for _, s := range keys {
+						c := spec.ClassifyAddr(o.role, s)
+						for _, site := range []string{"Set", "UnmarshalJSON"} {
+							nD++
+							var v value
+							var err error
+							fn := func() { v, _, err = o.setOnto(pa, pp, s) }
+							if site == "UnmarshalJSON" {
+								fn = func() { v, _, err = o.unmarshalOnto(pa, pp, jsonString(s)) }
+							}
+							name := fmt.Sprintf("%s.%s on a receiver holding %s:%d", o.typ, site, pa, pp)
+							if p, msg, frame := vk.Guard(fn); p {
+								report("C15/"+o.typ+"."+site+"/non-fresh-receiver/panic/"+frame, o, s, fmt.Sprintf("%s (%q) panicked: %s", name, s, msg))
+								continue
+							}
+							switch c.Verdict {
+							case spec.AddrMustAccept:
+								if err != nil {
+									report("C15/"+o.typ+"."+site+"/non-fresh-receiver/rejects-valid", o, s, fmt.Sprintf("%s (%q) rejected: %v", name, s, err))
+								} else if !sameAddr(v.addr, c.IP) || v.port != c.Port {
+									report("C15/"+o.typ+"."+site+"/non-fresh-receiver/wrong-value", o, s, fmt.Sprintf("%s (%q) = %s port %d, want %s port %d", name, s, v.addr, v.port, quad(c.IP), c.Port))
+								}
+							case spec.AddrMustReject:
+								if err == nil {
+									report("C15/"+o.typ+"."+site+"/non-fresh-receiver/accepts-"+c.Reason.String(), o, s, fmt.Sprintf("%s (%q) accepted as %s port %d, want rejection (%s for a %s address)", name, s, v.addr, v.port, c.Reason, o.role))
+								}
+							}
+						}
+					}
+				}
+			}
+		}
+		total.evals += nD
+		r.Set("familyD_non_fresh_receiver_cases", nD)
+	}
+
 	// ---- evidence
 	r.Count(total.evals)
 	r.Distinct(distinct * int64(len(roles)))
@@ -851,7 +933,7 @@ func main() {
 		"(B) a.b.c.d+suffix with [B1] two octet positions over {0,1,9,10,99,100,199,255,256,999,00,01} (others fixed to 12.34.56.78) and [B3] each position over 0..255, each x %d port suffixes (none, boundary ports, 65536, 99999, leading zeros, signs, blanks, empty); "+
 		"[B2] all 65536 plain-decimal ports x %s address texts; [B4] %s; "+
 		"(C) every string within edit distance %d (insert/delete/substitute over a 12-symbol alphabet incl. '[',']','%%','x',' ') of 6 valid addresses. "+
-		"Each input x 4 roles x {Parse, Set, UnmarshalJSON, MustParse}; String()->Parse and MarshalJSON->UnmarshalJSON for every accepted in-form input. "+
+		"Each input x 4 roles x {Parse, Set, UnmarshalJSON, MustParse}; String()->Parse and MarshalJSON->UnmarshalJSON for every accepted in-form input. (D) Set and UnmarshalJSON on receivers already holding each of 3 addresses x 6 ports (built with XxxAddrFrom, rule-violating ports included) x 29 texts incl. the receiver's own String(). "+
 		"A case is a (role, input string) pair; distinct = distinct non-empty input strings x 4 roles, counted conservatively "+
 		"(a string is counted for the first family that can contain it: B only if outside A's alphabets/length, C only if additionally not of the shape digits.digits.digits.digits[:suffix] of B; repeated entry points and round trips are evaluations, not cases)",
 		maxA1, maxA2, len(portSuffixes),
